@@ -96,6 +96,13 @@ type Op struct {
 	ExtendedPeriod uint32 `json:"extended_period,omitempty"`
 	RawFees        bool   `json:"raw_fees,omitempty"` // build fee coins without sorting/validation
 
+	// BankFault > 0 (message operations): the BankFault-th bank transfer the message makes fails
+	// (injected through the bank send restriction). A correct handler returns the error.
+	BankFault int `json:"bank_fault,omitempty"`
+	// NoRollback (keeper-level allow-list calls): the calling module ignores the returned error, so
+	// whatever the failed call has written stays (a transaction would discard it).
+	NoRollback bool `json:"no_rollback,omitempty"`
+
 	// hooks
 	Listeners   int    `json:"listeners,omitempty"`
 	FaultMethod string `json:"fault_method,omitempty"`
@@ -378,6 +385,9 @@ func (w *World) Apply(o Op) (res Result) {
 		return res
 	case OpAddAllowed:
 		cc, write := w.Ctx.CacheContext()
+		if o.NoRollback {
+			cc, write = w.Ctx, func() {}
+		}
 		func() {
 			defer recoverTo(&res)
 			err := w.keeper().AddAllowedBidders(cc, o.Auction, []types.AllowedBidder{{
@@ -397,6 +407,9 @@ func (w *World) Apply(o Op) (res Result) {
 		return res
 	case OpUpdateAllowed:
 		cc, write := w.Ctx.CacheContext()
+		if o.NoRollback {
+			cc, write = w.Ctx, func() {}
+		}
 		func() {
 			defer recoverTo(&res)
 			addr, err := sdk.AccAddressFromBech32(o.bidderRaw())
@@ -496,6 +509,13 @@ func (w *World) applyMsg(o Op) (res Result) {
 		return Result{Err: "the application has no handler for " + sdk.MsgTypeURL(msg)}
 	}
 	cc, write := w.Ctx.CacheContext()
+	if o.BankFault > 0 {
+		bankFault = faultPlan{active: true, failAt: o.BankFault - 1}
+		defer func() {
+			res.FaultHit = bankFault.hit
+			bankFault = faultPlan{}
+		}()
+	}
 	func() {
 		defer recoverTo(&res)
 		r, err := h(cc, msg)
